@@ -554,7 +554,13 @@ def general_program(draw, cfg, max_steps=30, extra=(), disable=()):
             b.add(b.probe())
         elif choice == 'fill' and room >= 2:
             n = d(st.integers(0, min(40, room - 1)))
-            if d(st.booleans()):
+            earlier = sorted(k for k, v in b.defined.items() if v and not k.startswith(('.', '_')))
+            if earlier and d(st.integers(0, 3)) == 0:
+                # the count names an address label defined earlier (possibly in another zone): known in the first pass
+                lab = ['lab', d(st.sampled_from(earlier))]
+                b.add({'t': 'fill', 'n': ['bin', '-', ['bin', '+', b.lit(n), lab], lab], 'v': b.lit(d(st.integers(0, 255)))})
+                feats.add('first-pass-expression-names-an-earlier-label')
+            elif d(st.booleans()):
                 b.add({'t': 'fill', 'n': b.value(n, consts), 'v': b.value(d(st.integers(-5, 300)))})
             else:
                 b.add({'t': 'zero', 'n': b.value(n, consts)})
